@@ -2,7 +2,9 @@
 
 rep : Z is LevyRepresentation.value (ZERO=1, CENTER=2, ONEONE=3, TILDE=4); fv = nu.jump_of_finite_variation();
 m1 a b = nu.integrate_against_x(a, b) and pinf stands for np.inf (Section variables: the hand model instantiates
-m1 with the truncated first-moment integral, which clips +-pinf to the truncation bounds)."""
+m1 with the truncated first-moment integral, which clips +-pinf to the truncation bounds).  `err` is the value of a
+`raise` (ZERO representation with jumps of infinite variation -> ValueError): the theorems hold for every err under the
+guard (fv = true or rep <> ZERO); the correspondence instantiates err with a sentinel and expects the ValueError."""
 
 _REP = "LevyRepresentation"
 _BEX = {
@@ -18,7 +20,7 @@ _ARGS = [("rep", "Z"), ("fv", "bool"), ("a", "Q")]
 
 
 def _fn(py, coq):
-    return {"py": py, "coq": coq, "pyargs": [], "args": _ARGS, "ret": "Q", "attrs": {"self.a": "a"}, "on_raise": "a",
+    return {"py": py, "coq": coq, "pyargs": [], "args": _ARGS, "ret": "Q", "attrs": {"self.a": "a"}, "on_raise": "err",
             "calls": {"self.nu.integrate_against_x": "m1", "self.canonical_drift": "canonical_drift rep fv a"}}
 
 
@@ -28,7 +30,7 @@ SPECS = {
         "dom": "Q",
         "consts": {"np.inf": "pinf"},
         "bexprs": _BEX,
-        "section": [("m1", "Q -> Q -> Q"), ("pinf", "Q")],
+        "section": [("m1", "Q -> Q -> Q"), ("pinf", "Q"), ("err", "Q")],
         "funcs": [
             _fn("LevyTriplet.canonical_drift", "canonical_drift"),
             _fn("LevyTriplet.zero_drift", "zero_drift"),
